@@ -4,6 +4,7 @@
 import Rl2tp.Props.C15
 import Rl2tp.Model.Errors
 import Rl2tp.Proofs.DataMsg
+import Rl2tp.Proofs.GenTables
 namespace Rl2tp.C20
 open C15 Text
 
@@ -340,5 +341,20 @@ theorem injected_vendor_fault (o : Opts) (fx fy : UInt8) (hw : FlagsOk o (word16
   · intro r hr; simp at hr
   · rw [resultOf_rec6]; exact fault_vendor _ _ _ _ hv
   · rfl
+
+/-! ### the name table and the Display texts as they stand in /repo's sources *now* (re-read by `bin/gentables` on every run) -/
+
+/-- the source's number → name table is the model's `avpName` on all 39 assigned numbers, and it agrees row by row with
+    the source's own dispatch table -/
+theorem source_avp_names :
+    Gen.avpNames = GenTables.assigned.map (fun t => (t, avpName (UInt16.ofNat t))) ∧ Gen.avpNames = Gen.dispatch :=
+  ⟨GenTables.avp_names_is_model, GenTables.names_match_dispatch⟩
+
+/-- every `#[error("…")]` text of the source, with an assigned (12), the unassigned in-range (20) and a large (200)
+    number spliced in, is what the model's `display` renders for that variant; all 26 variants are there -/
+theorem source_error_texts :
+    (∀ row ∈ Gen.errorTexts, ∀ n ∈ [12, 20, 200],
+      (GenTables.errOf row.1 n).map display = some (GenTables.sourceText row n)) ∧ Gen.errorTexts.length = 26 :=
+  ⟨GenTables.error_texts_is_model, GenTables.error_texts_complete⟩
 
 end Rl2tp.C20
